@@ -120,6 +120,7 @@ def run_tlc(name, module, cfg_text, workers=None, timeout=600, simulate=None, de
     cmd += (mode_args or [])
     cmd += [module + ".tla"]
     e = dict(os.environ)
+    e["JAVA_TOOL_OPTIONS"] = (e.get("JAVA_TOOL_OPTIONS", "") + " -Xss512m").strip()
     if deque:
         e["JAVA_TOOL_OPTIONS"] = (e.get("JAVA_TOOL_OPTIONS", "") +
                                   " -Dtlc2.tool.queue.IStateQueue=StateDeque").strip()
